@@ -1988,13 +1988,14 @@ PROPS = {
                     "oracle; additionally steered to every enum variant)",
             "assumptions": ["arbitrary 1.4.2 and derive_arbitrary behave as modelled / as observed",
                             "whole-request generation is tested, not proved"]},
-    "C16": {"ns": "C16", "cases": cases_c16, "uses": ["ext_encode", "rt"],
+    "C16": {"ns": "C16", "cases": cases_c16, "uses": ["ext_encode", "ext_wt", "rt"],
             "level_text": "Proof. G-EXT (Ctap/Extend.lean, mutual induction): if schema t' extends schema t — integer-keyed "
                           "structs only gain optional skipped members after all existing ones, text-keyed structs gain optional "
                           "skipped members anywhere, every existing member keeps key, aliases, type, optionality, reader and "
                           "serialisation mode, byte-string capacities may only grow — then every value of t is written to "
                           "identical bytes under t' with the new members unset (same_bytes), and (with G-RT) the encoding of any "
-                          "value of t decodes to that value under t and to its embedding under t' (same_values). Obligations "
+                          "value of t decodes to that value under t and to its embedding under t' (same_values; ext_wt: the "
+                          "embedding of a value an authenticator can hold is one it can hold, so no extra hypothesis). Obligations "
                           "(decide +kernel, regenerated schemas): ext holds for all request, response and extension-output "
                           "roots for all 27 ordered pairs of the 8 configurations (any two configurations meet in their "
                           "intersection: meet_le); std and arbitrary leave every schema and table unchanged; only the three "
